@@ -15,11 +15,22 @@
                                        nested objects deep-copied                  (mkcopy_deep = true: repaired)
      * copy.deepcopy    = [ODeepCopy]
      * dst.update_from_other_container(src) = [OUpdate]: every field of dst becomes copy.copy(getattr(src, name)):
-                                       one level fresh, everything below shared with src (unchanged by the repair);
+                                       one level fresh, everything below shared with src (upd = UShallow: today,
+                                       unchanged by the repairs); UAlias: the member object itself is handed over
+                                       (what a "copy only XMLTypeBase values" shortcut does to list members);
+                                       UDeep: copy.deepcopy (what a repair would do);
                                        getattr substitutes the IMPLIED value of a property whose value is None,
                                        which the operation carries as an explicit list of overrides
      * x.a.b.c = v      = [OWrite]:    follows references from an instance, overwrites one field of the object
                                        reached with an immutable value.
+     * x.a.b.append(v) / .pop() / .clear() = [OMut]: IN-PLACE change of the list object reached (its cell gets a
+                                       field more / a field less / no fields); appended values are immutable.
+     * a constructor parameter with a MUTABLE DEFAULT ARGUMENT (def __init__(self, names=[])) that is not given
+                                       = [XArg k]: Python evaluates the default once, the object lives as long as
+                                       the function (it is one of the process-start objects [dfl], like the
+                                       class-level defaults).  arg_fresh = true: the constructor stores a fresh
+                                       value (the `names or []` / None idiom: today's code has no such parameter),
+                                       arg_fresh = false: it stores the default-argument object itself.
    The heap is an append-only list of cells; a cell only ever refers to OLDER cells (every operation allocates
    children before parents and writes store immutable values), which makes the graph acyclic by construction. *)
 From Coq Require Import List ZArith Bool Arith.
@@ -97,26 +108,35 @@ Fixpoint pvalue (n : nat) (h : heap) (p : ptree) {struct p} : tree :=
 (* ---------------------------------------------------------------- state and operations *)
 Record state := mkState { hp : heap; dfl : list loc; insts : list cell }.
 
-Record cfg := mkCfg { parse_fresh : bool; mkcopy_deep : bool }.
-Definition today : cfg := mkCfg false false.      (* the code as it is *)
-Definition fixed : cfg := mkCfg true true.        (* with fixes/C12_parse_default + fixes/C12_mk_copy *)
+Inductive umode := UAlias | UShallow | UDeep.
+Record cfg := mkCfg { parse_fresh : bool; mkcopy_deep : bool; arg_fresh : bool; upd : umode }.
+Definition today : cfg := mkCfg false false true UShallow.  (* the code before the repairs *)
+Definition fixed : cfg := mkCfg true true true UShallow.    (* with fixes/C12_parse_default + fixes/C12_mk_copy *)
+Definition fixed_deep : cfg := mkCfg true true true UDeep.  (* ... and a deep-copying update_from_other_container *)
+Definition shared_arg : cfg := mkCfg true true false UShallow. (* a constructor storing its mutable default argument *)
+Definition byref_update : cfg := mkCfg true true true UAlias.  (* update handing members over by reference *)
 
 (* what a constructor / parser is asked to build, member by member *)
 Inductive xin :=
 | XImm (z : Z)                 (* immutable member (attribute, text, None) *)
 | XNode (fs : list xin)        (* a nested object / list created by this call *)
-| XDefault (k : nat).          (* member with mutable class default number k, not given (cls()) / absent in XML *)
+| XDefault (k : nat)           (* member with mutable class default number k, not given (cls()) / absent in XML *)
+| XArg (k : nat).              (* member taken from a constructor parameter whose mutable default object is k *)
 
 Definition deep_p (h : heap) (v : fval) : ptree := of_tree (value_f (length h) h v).
 
-Fixpoint resolve (fresh : bool) (s : state) (x : xin) {struct x} : ptree :=
+Fixpoint resolve (fresh afresh : bool) (s : state) (x : xin) {struct x} : ptree :=
   match x with
   | XImm z => PImm z
-  | XNode fs => PNode (map (resolve fresh s) fs)
+  | XNode fs => PNode (map (resolve fresh afresh s) fs)
   | XDefault k => match nth_error (dfl s) k with
                   | None => PImm 0
                   | Some d => if fresh then deep_p (hp s) (Ref d) else PAlias d
                   end
+  | XArg k => match nth_error (dfl s) k with
+              | None => PImm 0
+              | Some d => if afresh then deep_p (hp s) (Ref d) else PAlias d
+              end
   end.
 
 (* copy.copy of one field value: immutable stays, a nested object gets a new top cell with the same fields *)
@@ -130,15 +150,18 @@ Definition shallow_p (h : heap) (v : fval) : ptree :=
              end
   end.
 
-(* fields of dst after update_from_other_container: override (implied value) or copy.copy of the source field *)
-Fixpoint upd_list (h : heap) (ov : list (option Z)) (rec : cell) {struct rec} : list ptree :=
+(* fields of dst after update_from_other_container: override (implied value) or copy of the source field *)
+Definition upd_p (m : umode) (h : heap) (v : fval) : ptree :=
+  match m with UAlias => alias_p v | UShallow => shallow_p h v | UDeep => deep_p h v end.
+
+Fixpoint upd_list (m : umode) (h : heap) (ov : list (option Z)) (rec : cell) {struct rec} : list ptree :=
   match rec with
   | [] => []
   | v :: r =>
       match ov with
-      | Some z :: ro => PImm z :: upd_list h ro r
-      | None :: ro => shallow_p h v :: upd_list h ro r
-      | [] => shallow_p h v :: upd_list h [] r
+      | Some z :: ro => PImm z :: upd_list m h ro r
+      | None :: ro => upd_p m h v :: upd_list m h ro r
+      | [] => upd_p m h v :: upd_list m h [] r
       end
   end.
 
@@ -161,23 +184,30 @@ Fixpoint walk (h : heap) (l : loc) (path : list nat) {struct path} : option loc 
                  end
   end.
 
+(* in-place operations on a list object *)
+Inductive mut := MAppend (z : Z) | MPop | MClear.
+Definition mut_cell (m : mut) (c : cell) : cell :=
+  match m with MAppend z => c ++ [Imm z] | MPop => removelast c | MClear => [] end.
+
 Inductive op :=
 | ONew (fs : list xin)
 | OParse (fs : list xin)
 | OCopy (r : nat)
 | ODeepCopy (r : nat)
 | OUpdate (dst src : nat) (ov : list (option Z))
-| OWrite (r : nat) (path : list nat) (k : nat) (z : Z).
+| OWrite (r : nat) (path : list nat) (k : nat) (z : Z)
+| OMut (r : nat) (path : list nat) (m : mut).
 
 Definition build (s : state) (ps : list ptree) : state :=
   let (h', vs) := alloc_list ps (hp s) in mkState h' (dfl s) (insts s ++ [vs]).
 
-Definition write (s : state) (r : nat) (path : list nat) (k : nat) (z : Z) : state :=
+(* replace the cell reached from instance r along path by (f cell) *)
+Definition write_gen (s : state) (r : nat) (path : list nat) (f : cell -> cell) : state :=
   match nth_error (insts s) r with
   | None => s
   | Some rec =>
       match path with
-      | [] => mkState (hp s) (dfl s) (set_nth r (set_nth k (Imm z) rec) (insts s))
+      | [] => mkState (hp s) (dfl s) (set_nth r (f rec) (insts s))
       | i :: rest =>
           match nth_error rec i with
           | Some (Ref l) =>
@@ -185,7 +215,7 @@ Definition write (s : state) (r : nat) (path : list nat) (k : nat) (z : Z) : sta
               | None => s
               | Some t => match nth_error (hp s) t with
                           | None => s
-                          | Some c => mkState (set_nth t (set_nth k (Imm z) c) (hp s)) (dfl s) (insts s)
+                          | Some c => mkState (set_nth t (f c) (hp s)) (dfl s) (insts s)
                           end
               end
           | _ => s
@@ -193,10 +223,15 @@ Definition write (s : state) (r : nat) (path : list nat) (k : nat) (z : Z) : sta
       end
   end.
 
+Definition write (s : state) (r : nat) (path : list nat) (k : nat) (z : Z) : state :=
+  write_gen s r path (set_nth k (Imm z)).
+Definition mutate (s : state) (r : nat) (path : list nat) (m : mut) : state :=
+  write_gen s r path (mut_cell m).
+
 Definition step (c : cfg) (s : state) (o : op) : state :=
   match o with
-  | ONew fs => build s (map (resolve true s) fs)
-  | OParse fs => build s (map (resolve (parse_fresh c) s) fs)
+  | ONew fs => build s (map (resolve true (arg_fresh c) s) fs)
+  | OParse fs => build s (map (resolve (parse_fresh c) (arg_fresh c) s) fs)
   | OCopy r => match nth_error (insts s) r with
                | None => s
                | Some rec => if mkcopy_deep c then build s (map (deep_p (hp s)) rec)
@@ -209,11 +244,12 @@ Definition step (c : cfg) (s : state) (o : op) : state :=
   | OUpdate dst src ov =>
       match nth_error (insts s) dst, nth_error (insts s) src with
       | Some _, Some rec =>
-          let (h', vs) := alloc_list (upd_list (hp s) ov rec) (hp s) in
+          let (h', vs) := alloc_list (upd_list (upd c) (hp s) ov rec) (hp s) in
           mkState h' (dfl s) (set_nth dst vs (insts s))
       | _, _ => s
       end
   | OWrite r path k z => write s r path k z
+  | OMut r path m => mutate s r path m
   end.
 
 Definition run (c : cfg) (s : state) (ops : list op) : state := fold_left (step c) ops s.
@@ -236,6 +272,7 @@ Definition default_value (n : nat) (s : state) (k : nat) : option tree :=
 Definition target (o : op) : option nat :=
   match o with
   | OWrite r _ _ _ => Some r
+  | OMut r _ _ => Some r
   | OUpdate d _ _ => Some d
   | _ => None
   end.
